@@ -30,3 +30,27 @@ Definition check_token (c : N * utoken * bstr) : N :=
 
 Definition check_tokens (l : list (N * utoken * bstr)) : list (N * N) :=
   filter_map (fun c => let r := check_token c in if r =? 0 then None else Some (fst (fst c), r)) l.
+
+(* ---- receipts (C10) ---- *)
+From Ucanto Require Import ReceiptFormat.
+
+Definition outcome_eqb (a b : outcome) : bool :=
+  beq (o_ran a) (o_ran b) && Bool.eqb (o_ok a) (o_ok b) && ipld_eqb (o_val a) (o_val b) &&
+  list_eqb beq (o_fork a) (o_fork b) && option_eqb beq (o_join a) (o_join b) &&
+  fact_eqb (o_meta a) (o_meta b) && option_eqb beq (o_iss a) (o_iss b) && list_eqb beq (o_prf a) (o_prf b).
+
+(* (id, receipt as decoded generically from the transported root block, root block bytes,
+    DAG-CBOR of the outcome as the implementation re-encodes it)
+   0 agreement; 1 root bytes differ; 2 outcome (signed) bytes differ; 3 decoding does not give the receipt back *)
+Definition check_receipt (c : N * rcpt * bstr * bstr) : N :=
+  match c with (_, r, root, obytes) =>
+    if negb (beq (receipt_bytes r) root) then 1
+    else if negb (beq (outcome_bytes (r_ocm r)) obytes) then 2
+    else match receipt_decode root with
+         | Some r' => if outcome_eqb (r_ocm r') (canon_outcome (r_ocm r)) && beq (r_sig r') (r_sig r) then 0 else 3
+         | None => 3
+         end
+  end.
+
+Definition check_receipts (l : list (N * rcpt * bstr * bstr)) : list (N * N) :=
+  filter_map (fun c => let r := check_receipt c in if r =? 0 then None else Some (fst (fst (fst c)), r)) l.
